@@ -309,7 +309,7 @@ func init() {
 
 	// ---- least squares ---------------------------------------------------------------
 	register(&Routine{
-		Name: "Dgels", Dims: []string{"m", "n", "nrhs"}, Flags: []FlagSpec{fTrans()}, HasLWork: true,
+		Name: "Dgels", Dims: []string{"m", "n", "nrhs"}, Flags: []FlagSpec{fTrans3()}, HasLWork: true,
 		Layout: func(b *Builder) {
 			b.Flag("trans")
 			m, n, nrhs := b.Dim("m"), b.Dim("n"), b.Dim("nrhs")
